@@ -207,27 +207,27 @@ package boltz
 
 
 //@ func (*stringSymbolComparator).Compare
-//@   props C02
+//@   props C02 C10
 //@   requires c.symbol != nil && row1 != nil && row2 != nil
 //@   pure
 //@   ensures[order] result == ite(c.forward, 1, -1) * cmp3(f2sNull(symFT(c.symbol, symRow[row1]), symBytes(c.symbol, symRow[row1]), symBytesNil(c.symbol, symRow[row1])), f2sNull(symFT(c.symbol, symRow[row2]), symBytes(c.symbol, symRow[row2]), symBytesNil(c.symbol, symRow[row2])), f2sVal(symFT(c.symbol, symRow[row1]), symBytes(c.symbol, symRow[row1])) < f2sVal(symFT(c.symbol, symRow[row2]), symBytes(c.symbol, symRow[row2])), f2sVal(symFT(c.symbol, symRow[row1]), symBytes(c.symbol, symRow[row1])) > f2sVal(symFT(c.symbol, symRow[row2]), symBytes(c.symbol, symRow[row2])))
 //@ func (*int64SymbolComparator).Compare
-//@   props C02
+//@   props C02 C10
 //@   requires c.symbol != nil && row1 != nil && row2 != nil
 //@   pure
 //@   ensures[order] result == ite(c.forward, 1, -1) * cmp3(f2iNull(symFT(c.symbol, symRow[row1]), symBytes(c.symbol, symRow[row1]), symBytesNil(c.symbol, symRow[row1])), f2iNull(symFT(c.symbol, symRow[row2]), symBytes(c.symbol, symRow[row2]), symBytesNil(c.symbol, symRow[row2])), f2iVal(symFT(c.symbol, symRow[row1]), symBytes(c.symbol, symRow[row1])) < f2iVal(symFT(c.symbol, symRow[row2]), symBytes(c.symbol, symRow[row2])), f2iVal(symFT(c.symbol, symRow[row1]), symBytes(c.symbol, symRow[row1])) > f2iVal(symFT(c.symbol, symRow[row2]), symBytes(c.symbol, symRow[row2])))
 //@ func (*float64SymbolComparator).Compare
-//@   props C02
+//@   props C02 C10
 //@   requires c.symbol != nil && row1 != nil && row2 != nil
 //@   pure
 //@   ensures[order] result == ite(c.forward, 1, -1) * cmp3(f2fNull(symFT(c.symbol, symRow[row1]), symBytes(c.symbol, symRow[row1]), symBytesNil(c.symbol, symRow[row1])), f2fNull(symFT(c.symbol, symRow[row2]), symBytes(c.symbol, symRow[row2]), symBytesNil(c.symbol, symRow[row2])), f2fVal(symFT(c.symbol, symRow[row1]), symBytes(c.symbol, symRow[row1])) < f2fVal(symFT(c.symbol, symRow[row2]), symBytes(c.symbol, symRow[row2])), f2fVal(symFT(c.symbol, symRow[row1]), symBytes(c.symbol, symRow[row1])) > f2fVal(symFT(c.symbol, symRow[row2]), symBytes(c.symbol, symRow[row2])))
 //@ func (*boolSymbolComparator).Compare
-//@   props C02
+//@   props C02 C10
 //@   requires c.symbol != nil && row1 != nil && row2 != nil
 //@   pure
 //@   ensures[order] result == ite(c.forward, 1, -1) * cmp3(f2bNull(symFT(c.symbol, symRow[row1]), symBytes(c.symbol, symRow[row1]), symBytesNil(c.symbol, symRow[row1])), f2bNull(symFT(c.symbol, symRow[row2]), symBytes(c.symbol, symRow[row2]), symBytesNil(c.symbol, symRow[row2])), !f2bVal(symFT(c.symbol, symRow[row1]), symBytes(c.symbol, symRow[row1])) && f2bVal(symFT(c.symbol, symRow[row2]), symBytes(c.symbol, symRow[row2])), f2bVal(symFT(c.symbol, symRow[row1]), symBytes(c.symbol, symRow[row1])) && !f2bVal(symFT(c.symbol, symRow[row2]), symBytes(c.symbol, symRow[row2])))
 //@ func (*datetimeSymbolComparator).Compare
-//@   props C02
+//@   props C02 C10
 //@   requires c.symbol != nil && row1 != nil && row2 != nil
 //@   pure
 //@   ensures[order] result == ite(c.forward, 1, -1) * cmp3(f2dNull(symFT(c.symbol, symRow[row1]), symBytes(c.symbol, symRow[row1]), symBytesNil(c.symbol, symRow[row1])), f2dNull(symFT(c.symbol, symRow[row2]), symBytes(c.symbol, symRow[row2]), symBytesNil(c.symbol, symRow[row2])), f2dInstant(symFT(c.symbol, symRow[row1]), symBytes(c.symbol, symRow[row1])) < f2dInstant(symFT(c.symbol, symRow[row2]), symBytes(c.symbol, symRow[row2])), f2dInstant(symFT(c.symbol, symRow[row1]), symBytes(c.symbol, symRow[row1])) > f2dInstant(symFT(c.symbol, symRow[row2]), symBytes(c.symbol, symRow[row2])))
@@ -520,6 +520,7 @@ package boltz
 //@   requires !curDesc[scanner.cursor]
 //@   modifies scanner.current, scanner.offset, scanner.collected, curPos[scanner.cursor], scanner.rowCursor.currentRow, symRow[scanner.rowCursor]
 //@   ensures[at-or-after] scanner.current != nil ==> !(str(scanner.current) < str(val))
+//@   lensures[a-seekable-cursor-is-re-positioned-an-exhausted-scan-too] istype(scanner.cursor, ast.SeekableSetCursor) ==> called(Seek, 1)
 //@   lensures[a-scan-that-is-already-there-stays] !ok && old(scanner.current) != nil && !(old(str(scanner.current)) < str(val)) ==> scanner.current == old(scanner.current) && curPos[scanner.cursor] == old(curPos[scanner.cursor])
 //@   invariant 1: scanner.cursor != nil && scanner.rowCursor != nil && scanner.filter != nil && scanner.store != nil && 0 <= curPos[scanner.cursor] && curPos[scanner.cursor] <= curLen[scanner.cursor] && 0 <= scanner.offset && scanner.offset <= max(scanner.targetOffset, 0) && 0 <= scanner.collected && (old(scanner.current) != nil && !(old(str(scanner.current)) < str(val)) ==> scanner.current == old(scanner.current) && curPos[scanner.cursor] == old(curPos[scanner.cursor]))
 
@@ -700,3 +701,18 @@ package boltz
 //@   modifies *
 //@   ensures[id-order-comes-from-the-id-index-in-the-requested-direction] len(sort) == 0 || sfSym[sort[0]] == "id" ==> istype(result, *uniqueIndexScanner) && as(result, *uniqueIndexScanner).forward == (len(sort) == 0 || sfAsc[sort[0]]) && as(result, *uniqueIndexScanner).store == store && as(result, *uniqueIndexScanner).offset == 0 && as(result, *uniqueIndexScanner).count == 0 && as(result, *uniqueIndexScanner).collected == 0
 //@   ensures[any-other-order-is-sorted] len(sort) > 0 && sfSym[sort[0]] != "id" ==> istype(result, *sortingScanner) && as(result, *sortingScanner).store == store && as(result, *sortingScanner).offset == 0 && as(result, *sortingScanner).count == 0
+
+// a row without a bucket for the set has no bolt cursor: the runtime symbol is then an empty set - stepping or seeking
+// it does nothing, it never reaches for the cursor that is not there (C10: evaluation over empty sets does not panic)
+//@ func (*entitySetSymbolRuntime).SeekToString
+//@   props C10 C14 C01
+//@   modifies symbol.value, bcPos[symbol.cursor]
+//@   callpre[no-cursor-no-seek] Seek@1: recv != nil
+//@ func (*entitySetSymbolRuntime).Seek
+//@   props C10
+//@   modifies symbol.value, bcPos[symbol.cursor]
+//@   callpre[no-cursor-no-seek] Seek@1: recv != nil
+//@ func (*entitySetSymbolRuntime).Next
+//@   props C10
+//@   modifies symbol.value, bcPos[symbol.cursor]
+//@   callpre[no-cursor-no-step] Next@1: recv != nil
